@@ -630,18 +630,19 @@ func (ce *callEngine) recoverOnCall(ctx context.Context, m *wasm.ModuleInstance,
 	frameCount := len(ce.frames)
 	functionListeners := make([]functionListenerInvocation, 0, 16)
 
-	if frameCount > wasmdebug.MaxFrames {
-		frameCount = wasmdebug.MaxFrames
-	}
+	// Every frame is unwound so that each listener that saw Before also sees Abort; only the
+	// stack trace is limited to wasmdebug.MaxFrames.
 	for i := 0; i < frameCount; i++ {
 		frame := ce.popFrame()
 		f := frame.f
 		def := f.definition()
-		var sources []string
-		if parent := frame.f.parent; parent.body != nil && len(parent.offsetsInWasmBinary) > 0 {
-			sources = parent.source.DWARFLines.Line(parent.offsetsInWasmBinary[frame.pc])
+		if i < wasmdebug.MaxFrames {
+			var sources []string
+			if parent := frame.f.parent; parent.body != nil && len(parent.offsetsInWasmBinary) > 0 {
+				sources = parent.source.DWARFLines.Line(parent.offsetsInWasmBinary[frame.pc])
+			}
+			builder.AddFrame(def.DebugName(), def.ParamTypes(), def.ResultTypes(), sources)
 		}
-		builder.AddFrame(def.DebugName(), def.ParamTypes(), def.ResultTypes(), sources)
 		if f.parent.listener != nil {
 			functionListeners = append(functionListeners, functionListenerInvocation{
 				FunctionListener: f.parent.listener,
